@@ -63,9 +63,49 @@ static char byte1(const std::string &t)
     return b.data()[0];
 }
 
+// many consecutive calls on one thread: a byte is a delimiter / member of the character set in the FIRST call only; all
+// later calls use other sets on a subject that contains that byte.  Each result is compared with a reference computed
+// here (the single-call behaviour is the subject of the ordinary cases); what is looked for is a result that depends on
+// how many calls went before (generation counters that wrap, tables that are not cleared, caches that evict).
+static std::string do_soak(size_t calls)
+{
+    auto ref_tokens = [](const std::string &t, const std::string &delims) {
+        std::vector<std::string> out;
+        std::string cur;
+        for (char c : t) {
+            if (delims.find(c) != std::string::npos) { if (!cur.empty()) out.push_back(cur); cur.clear(); }
+            else cur.push_back(c);
+        }
+        if (!cur.empty()) out.push_back(cur);
+        return out;
+    };
+    auto ref_trim = [](const std::string &t, const std::string &set) {
+        size_t b = 0, e = t.size();
+        while (b < e && set.find(t[b]) != std::string::npos) ++b;
+        while (e > b && set.find(t[e - 1]) != std::string::npos) --e;
+        return t.substr(b, e - b);
+    };
+    const std::string subj = "\"xa y,b;a\t,end'q\"";
+    const ST::string S = ST::string::from_validated(subj.data(), subj.size());
+    static const char *sets[] = { " \t", ",", ";", ", ;", "\t", "xy" };
+    for (size_t k = 0; k < calls; ++k) {
+        const std::string d = (k == 0) ? std::string("a\"'") : std::string(sets[k % 6]);
+        std::vector<ST::string> got = S.tokenize(d.c_str());
+        std::vector<std::string> want = ref_tokens(subj, d);
+        bool ok = got.size() == want.size();
+        for (size_t i = 0; ok && i < got.size(); ++i) ok = (got[i].size() == want[i].size() && memcmp(got[i].c_str(), want[i].data(), want[i].size()) == 0);
+        ST::string tr = S.trim(d.c_str());
+        std::string wtr = ref_trim(subj, d);
+        ok = ok && tr.size() == wtr.size() && memcmp(tr.c_str(), wtr.data(), wtr.size()) == 0;
+        if (!ok) { std::ostringstream o; o << "differs-at-call-" << k; return o.str(); }
+    }
+    return "clean";
+}
+
 static std::string dispatch(const std::string &op, const Args &a)
 {
     if (op == "fill") return info(ST::string::fill(u64(a[0]), byte1(a[1])));
+    if (op == "soak") return do_soak(size_t(u64(a[0])));
 
     const ST::string s = mk(a[0]);
     if (op == "substr") {
